@@ -154,7 +154,7 @@ def run(ctx):
         if len(samples) < 2:
             samples.append({"graph": {k: g[k] for k in ("nodes", "bound", "entrypoints", "selected")}, "reported": spec})
         i += 1
-    n_eval += nested_part(ctx, dist, nontrivial)
+    n_eval += nested_part(ctx, dist, nontrivial, batch, N, cases_dbg, i)
     n_eval += bound_output_part(ctx, dist)
     res = batch.run()
     if res["error"]:
@@ -172,7 +172,7 @@ def run(ctx):
     ctx.assumptions += ["calls supply graph inputs only (internal overrides and bound output names are outside this check; see known findings)"]
 
 
-def nested_part(ctx, dist, nontrivial):
+def nested_part(ctx, dist, nontrivial, batch, N, cases_dbg, i0):
     """The same contract for graphs that contain nested graphs (oracle only): bindings on inner graphs, wrapper inputs
     renamed after the wrapper object was already used, a selection that leaves the nested graph out of scope, and a
     sibling node sharing a parameter name with the inner graph."""
@@ -206,6 +206,19 @@ def nested_part(ctx, dist, nontrivial):
         spec = real_spec(G)
         case = {"graph": g}
         dist["nested"] = dist.get("nested", 0) + 1
+        # MODEL: the input spec of a graph containing nested graphs (Nested.ng_spec: wrapper interface through the renames,
+        # bindings of inner graphs merged under the wrapper's current names), when no selection narrows the scope
+        if g.get("selected") is None:
+            ci = i0 + 1000 + dist["nested"]
+            try:
+                pdl.coq_ngraph(N, g, lambda name, term, ty, ci=ci: batch.add_def(ci, name, term, ty), prefix="ng")
+                names = lambda l: c_list([c_pos(N(x)) for x in l])  # noqa: E731
+                real_t = (f"(mk_ispec {names(spec['required'])} {names(spec['optional'])} "
+                          f"{c_list([c_pair(c_pos(N(k)), names(v)) for k, v in spec['entry'].items()])} {pdl.c_dictval(N, spec['bound'])})")
+                batch.add(ci, 130, "spec_eqb", "ng_spec $ng", real_t)
+                cases_dbg[ci] = {"graph": g, "reported": spec}
+            except Exception as e:  # noqa: BLE001
+                ctx.violation("harness", f"cannot describe the nested graph to the model: {e}", case=case)
         R, O = set(spec["required"]), set(spec["optional"])
         if R & O:
             ctx.violation("oracle", f"required and optional overlap: {sorted(R & O)}", case=case, observed=spec)
